@@ -115,6 +115,13 @@ def queries(rng, doc: Node, reg: Registry, docs):
         plain = [k.mark([]) if k.is_text else k for k in kids]
         reg.see(Fragment.from_(plain + plain))
         reg.see(Fragment.from_array(kids[::-1] + kids))
+        # two separate runs of joinable text in ONE call: the second run starts with a node of the live document
+        texts = [k for k in kids if k.is_text]
+        for x in texts[:2]:
+            for y in texts[-2:]:
+                if not x.same_markup(y):
+                    reg.see(Fragment.from_array([x, x, y, y]))
+                    reg.see(Fragment.from_array([x, x, y, y, x, x]))
     # primitive mark steps built directly (not planned by Transform.add_mark), wide ranges
     from prosemirror.transform import AddMarkStep, RemoveMarkStep
     m = S.rand_mark(rng, doc.type.schema)
